@@ -106,7 +106,14 @@ class NativeBatch:
             for (t, v) in args:
                 n += 1
                 nm = 'a%d' % n
-                if isinstance(t, tuple) and t[0] == 'ptr':
+                if isinstance(t, tuple) and t[0] == 'alias':
+                    # ('alias', index of an earlier ptr argument of this call, pointee type, mutable, guard words)
+                    tgt = names[t[1]]
+                    if t[3]:
+                        body.append('    %s := (^mut %s).(mut rawptr.(^mut %s_w[%d]));' % (nm, t[2], tgt, t[4]))
+                    else:
+                        body.append('    %s := (^%s).(rawptr.(^%s_w[%d]));' % (nm, t[2], tgt, t[4]))
+                elif isinstance(t, tuple) and t[0] == 'ptr':
                     # ('ptr', pointee type, nbytes, mutable): v = bit pattern of the pointee (little endian int)
                     # optional 5th element: number of guard words on each side of the object (v covers them too)
                     pt, nbytes, mutable = t[1], t[2], t[3]
